@@ -106,11 +106,29 @@ def run_pipeline(run, tier):
             run.undecide(ob, why)
 
 
+def run_cli(run, tier):
+    """command-line entry point: options reach the parser unchanged, the command prints its listing limited by --count"""
+    from checks import cli
+    run.pending_cli = []
+    cli.verify_cli(run, tier, run.pid)
+    if not run.pending_cli:
+        return
+    out = native({'kind': 'cli_case'}, timeout=600)
+    for ob, status, why in run.pending_cli:
+        if out.get('violates'):
+            run.violation(ob, {'request': {'kind': 'cli_case'}, 'native': out, 'solver_output': why}, True, what=out.get('what', ''))
+        elif status == 'refuted':
+            run.violation(ob, {'request': None, 'solver_output': why}, False, what=why)
+        else:
+            run.undecide(ob, why)
+
+
 def run_generic(run, tier):
     pid = run.pid
     failures = []
     run_wiring(run, tier)
     run_pipeline(run, tier)
+    run_cli(run, tier)
     # ---- constructors
     sess = Session()
     it = sess.it
